@@ -144,6 +144,8 @@ pub enum Op {
     Extend { items: Vec<(u64, u64)> },
     /// consume the map with into_iter, pull `take`, drop the rest
     IntoIter { take: usize },
+    /// C04's wording, executed on the map itself: insert capacity()-len() unseen keys `start..`
+    FillProbe { start: u64 },
     Drop,
 }
 
@@ -182,6 +184,7 @@ pub fn fmt_op(mid: usize, op: &Op) -> String {
             if items.is_empty() { "-".to_string() } else { items.iter().map(|(k, v)| format!("{k}:{v}")).collect::<Vec<_>>().join(",") }
         ),
         Op::IntoIter { take } => format!("intoiter {mid} {take}"),
+        Op::FillProbe { start } => format!("fillprobe {mid} {start}"),
         Op::Drop => format!("drop {mid}"),
     }
 }
@@ -232,6 +235,7 @@ pub fn parse_op(line: &str) -> Option<Line> {
             Op::Extend { items }
         }
         "intoiter" => Op::IntoIter { take: z(2)? },
+        "fillprobe" => Op::FillProbe { start: u(2)? },
         "drop" => Op::Drop,
         _ => return None,
     };
@@ -276,6 +280,9 @@ pub struct World {
     /// per map: (L at the split, key-adding calls since)
     pub split_track: Vec<Option<(usize, usize)>>,
     pub quiet_transcript: bool,
+    pub progress: Option<std::fs::File>,
+    pub last_da: u64,
+    pub last_panicked: bool,
     pub r: usize,
     /// an iterator was forgotten: objects may stay live for ever
     pub leak_allowed: bool,
@@ -398,6 +405,9 @@ impl World {
             op_index: 0,
             split_track: vec![],
             quiet_transcript: false,
+            progress: None,
+            last_da: 0,
+            last_panicked: false,
             r: 8,
             leak_allowed: false,
         }
@@ -425,6 +435,11 @@ impl World {
 
     /// Execute one op: real call under the window, transcript line, direct oracles.
     pub fn exec(&mut self, mid: usize, op: &Op) {
+        if let Op::FillProbe { start } = op {
+            self.fill_probe(mid, *start);
+            return;
+        }
+        self.progress_line(mid, op);
         self.ensure(mid);
         if matches!(op, Op::New { .. } | Op::Clone { .. }) && self.maps[mid].is_some() {
             // the slot is taken: drop what is there first (as its own, observed, step)
@@ -1216,6 +1231,7 @@ impl World {
                 }
                 self.split_track[mid] = None;
             }
+            Op::FillProbe { .. } => unreachable!(),
             Op::Drop => {
                 let m = self.maps[mid].take().unwrap();
                 self.refs[mid] = None;
@@ -1272,6 +1288,8 @@ impl World {
             });
         }
         obsx.push(format!("dh={dh} da={da} df={df}"));
+        self.last_da = da;
+        self.last_panicked = panic_kind.is_some();
         obsx.push(format!("drop={}", ids_fmt(&mut dropped)));
         obsx.push(format!("retd={}", ids_fmt(&mut returned)));
         obsx.push(format!("panic={}", panic_kind.clone().unwrap_or("-".into())));
@@ -1315,6 +1333,12 @@ impl World {
                 // handled by the fault-injection slices
             } else if !documented {
                 self.fail(&["C01", "C05", "C17"], format!("undocumented panic: {p}"));
+                if matches!(op, Op::Reserve { .. } | Op::TryReserve { .. } | Op::Shrink { .. } | Op::ShrinkToFit | Op::New { .. }) {
+                    self.fail(&["C10"], format!("capacity-management call panicked: {p}"));
+                }
+                if matches!(op, Op::Insert { .. } | Op::Entry { .. } | Op::Extend { .. }) && p == "assert_leftovers" {
+                    self.fail(&["C04"], "an insert found the table full while a resize was still pending".into());
+                }
             }
             // the model keeps no state for a panicked map: take it out of the lock-step
             if let Some(m) = self.maps[mid].take() {
@@ -1387,6 +1411,54 @@ impl World {
                             self.fail(&["C03"], format!("key-adding call left {} in the old table, expected {}", po_old.0, expect));
                         }
                     }
+                }
+            }
+        }
+    }
+
+    fn progress_line(&mut self, mid: usize, op: &Op) {
+        if let Some(f) = self.progress.as_mut() {
+            use std::io::Write;
+            let _ = writeln!(f, "{}", fmt_op(mid, op));
+        }
+    }
+
+    /// The property C04 in its own words, on the map itself: insert `capacity() - len()` unseen
+    /// keys; none may panic or allocate, `capacity()` may not decrease, and (if at least one was
+    /// inserted) no resize may be pending afterwards.  The inserts are ordinary ops (mirrored in
+    /// the reference and replayed by the model).
+    pub fn fill_probe(&mut self, mid: usize, start: u64) {
+        let Some(m) = self.maps.get(mid).and_then(|m| m.as_ref()) else { return };
+        let n = m.capacity() - m.len().min(m.capacity());
+        if n > 5000 {
+            return;
+        }
+        let mut cap_prev = m.capacity();
+        let mut k = start;
+        let mut done = 0;
+        while done < n {
+            let present = self.refs[mid].as_ref().map_or(false, |r| r.contains_key(&k));
+            if !present {
+                self.exec(mid, &Op::Insert { k, v: 77 });
+                done += 1;
+                let Some(m) = self.maps.get(mid).and_then(|m| m.as_ref()) else {
+                    self.fail(&["C04"], format!("fill-to-capacity: insert {done} of {n} panicked"));
+                    return;
+                };
+                if self.last_da != 0 {
+                    self.fail(&["C04", "C10"], format!("fill-to-capacity: insert {done} of {n} allocated a table"));
+                }
+                if m.capacity() < cap_prev {
+                    self.fail(&["C04"], format!("fill-to-capacity: capacity() decreased from {cap_prev} to {}", m.capacity()));
+                }
+                cap_prev = m.capacity();
+            }
+            k += 1;
+        }
+        if n >= 1 {
+            if let Some(m) = self.maps.get(mid).and_then(|m| m.as_ref()) {
+                if m.verif_state().old.is_some() {
+                    self.fail(&["C04", "C03"], format!("fill-to-capacity: a resize is still pending after inserting capacity()-len() = {n} keys"));
                 }
             }
         }
